@@ -10,7 +10,13 @@ for id in "$@"; do
   for d in /verif/seeded/$id-*/; do
     name=$(basename $d)
     cd $wt && git checkout -q -- . && git clean -qfd src
-    if ! git apply $d/patch.diff 2>/dev/null; then echo "$name NOAPPLY" > /verif/gen/revalidate/$name.txt; continue; fi
+    if ! git apply $d/patch.diff 2>/dev/null; then
+      # later fix: commits moved the context: retry with fuzz
+      if ! patch -p1 -F3 --no-backup-if-mismatch -s < $d/patch.diff; then
+        git checkout -q -- . ; git clean -qfd src; find . -name "*.rej" | xargs -r rm
+        echo "$name NOAPPLY" > /verif/gen/revalidate/$name.txt; continue
+      fi
+    fi
     checks=$(/venv/bin/python - "$d/meta.json" "$id" <<'PY'
 import json, re, sys
 m = json.load(open(sys.argv[1])); own = sys.argv[2]
